@@ -185,6 +185,7 @@ func genIlvStep(t *rapid.T) Case {
 	s := genSingle(t, ilvVias)
 	if s.Via == "http" {
 		s.ErrPath = rapid.SampledFrom(ilvErrPaths).Draw(t, "ilverrpath")
+		s.StoreErr = nil // steps of an interleaving use no storage faults
 	}
 	if s.Resp == "error" && (s.Via == "autherror" || s.Via == "tryerror") && rapid.IntRange(0, 3).Draw(t, "useshared") == 0 {
 		s.ErrRef = 1
@@ -209,6 +210,9 @@ func genIlv(t *rapid.T) Case {
 			s.Via, s.Mode, s.RT, s.ErrPath, s.AppType, s.Resp, s.JWTAccess = f.Via, f.Mode, f.RT, f.ErrPath, f.AppType, f.Resp, f.JWTAccess
 			s.ErrKind, s.ErrCode, s.ErrDesc, s.ErrRef = f.ErrKind, f.ErrCode, f.ErrDesc, f.ErrRef
 			s.Code, s.IDToken, s.AccessToken, s.TokenType, s.ExpiresIn = f.Code+fmt.Sprint(i), f.IDToken, f.AccessToken, f.TokenType, f.ExpiresIn
+			for _, fl := range []string{"err_code", "err_desc", "code", "id_token", "access_token", "token_type"} {
+				setFlag(&s.Bytes, fl, has(f.Bytes, fl))
+			}
 			if s.Via == "http" && s.URIKind != "https" {
 				s.AppType = "native"
 			}
@@ -224,8 +228,7 @@ func genIlv(t *rapid.T) Case {
 			s.ErrRef = 0
 		}
 		if s.ErrRef > 0 {
-			sp := c.SharedErrs[s.ErrRef-1]
-			s.ErrKind, s.ErrCode, s.ErrDesc = sp.Kind, sp.Code, sp.Desc
+			s.inheritErr(c.SharedErrs[s.ErrRef-1])
 		}
 	}
 	return c
